@@ -171,7 +171,7 @@ def override_program():
 
 
 OVERRIDE_VALUES = {"enter_if": [True, False], "enter_while": [True, False], "_assert": [True, False], "_break": [True, False],
-                   "_continue": [True, False], "boolean": [True, False], "string": ["zz", ""]}
+                   "_continue": [True, False], "boolean": [True, False], "string": ["zz", ""], "enter_control_flow": [True, False]}
 
 
 def override_cases(pid, overridable, all_hooks):
@@ -205,6 +205,26 @@ def bare_return_program():
             ("assign", N(), [("tname", "y")], ("call", N(), nm("f0"), [c(2)])),
             ("assign", N(), [("tname", "z")], ("call", N(), nm("f1"), []))]
     return funs, main, ["_return", "function_enter", "function_exit", "implicit_return", "pre_call", "post_call"]
+
+
+def override_for_cases(pid, all_hooks):
+    """answers of the generic and of the specific hook at every step of a for loop (elements and exhaustion)"""
+    N = _N()
+    c = lambda z: ("const", N(), "int", z)
+    kc = lambda e: ("expr", ("call", N(), ("name", N(), "k"), [e]))
+    main = [("try", N(), [("for", N(), "i2", ("list", N(), [c(1), c(2), c(3)]), [kc(("name", N(), "i2"))], [kc(c(9))])],
+             [(("name", N(), "Exception"), None, [kc(c(8))])], [], []),
+            kc(c(5))]
+    prog, _ = build("override_for", main, list(all_hooks))
+    out, rout = [], []
+    for hk, vals in (("enter_control_flow", [True, False]), ("enter_for", [0, 7])):
+        for k in (0, 1, 2, 3, 4):
+            for val in vals:
+                ans = [{"cls": "A0", "hooks": {x: None for x in set(all_hooks) | {hk}}, "script": {hk: [None] * k + [val]}}]
+                name = "override_for:%s:%d:%r" % (hk, k, val)
+                out.append({"prog": prog, "analyses": ans, "coverage": False, "mode": "corpus:" + name})
+                rout.append({"id": "%s/corpus/%s" % (pid, name), "files": {"main.py": prog["source"]}, "analyses": ans})
+    return out, rout
 
 
 def build(name, main=None, hooks=None, funs=None):
